@@ -198,6 +198,28 @@ pub fn run(ctx: &Ctx) -> CheckResult {
             }
             res.absorb(o);
         }
+        // the windowed ratio indicators (CCI, MFI) on long streams: recomputed from the harness's own copy
+        // of the window (the driver C13 uses), for code that only runs every few thousand updates
+        if !res.out.failed() {
+            use super::c13::{long_run, LongRun};
+            let mut runs = vec![];
+            for &n in &[2usize, 5, 14, 20] {
+                for (oi, ord) in ords.iter().enumerate() {
+                    if oi % 4 != n % 4 && !th {
+                        continue;
+                    }
+                    for k in [Kind::Cci, Kind::Mfi] {
+                        runs.push(LongRun { cfg: Cfg::p1(k, n), regimes: ord.clone(), seglen: if th { 100_000 } else { 6_000 }, m: 0.7, force_bars: false });
+                    }
+                }
+            }
+            let outs = par_run(ctx, &runs, |_, r| {
+                let mut out = JobOut::default();
+                long_run(PROP, r, ctx.seed, 97, &mut out);
+                out
+            });
+            res.absorb(merge_jobs(outs));
+        }
     }
     // Default::default() instances against the reference for the parameters they report
     if !res.out.failed() {
@@ -207,7 +229,7 @@ pub fn run(ctx: &Ctx) -> CheckResult {
     }
     res.require(res.out.stats.evaluations > 0, "no applicable oracle evaluation");
     res.rule = "case = (configuration, history of positive prices / valid bars) replayed on a fresh real instance; last output compared with the documented formula evaluated from scratch (double-double) at tolerance tau(t)*c*scale; steps with zero reference denominator or c>1e6 are skipped and counted; non-trivial = applicable and history longer than the look-back".into();
-    res.bounds = format!("seq(S_pos+reset,{d}) for RSI/FAST_STOCH/ROC/ER n=1..5 (and inexact prices + a 2.5e8 spike symbol, n=1..4, one level shallower; S_huge = prices of 1e307..7e307 for RSI/FAST_STOCH/ROC/PPO); seq(B_grid+reset,{db}) for FAST_STOCH/CCI/OBV; seq(B_vol,{dv}) for MFI n=1..5 and OBV; seq(B_mfi (5 bars with equal typical prices), 8/10) for MFI n=1..4; the same alphabets in a 2^-60 price unit for periods 1..4 at reduced depth; SLOW_STOCH over {{1,2,3,5}}^2, PPO over {{1,2,3,5}}^3 at reduced depth; deviation families for periods up to {}; very long runs (2 x 25k / 2 x 500k steps) of RSI/FAST_STOCH/SLOW_STOCH/ROC/ER/PPO/OBV against an incremental double-double reference", if th { 512 } else { 100 });
+    res.bounds = format!("seq(S_pos+reset,{d}) for RSI/FAST_STOCH/ROC/ER n=1..5 (and inexact prices + a 2.5e8 spike symbol, n=1..4, one level shallower; S_huge = prices of 1e307..7e307 for RSI/FAST_STOCH/ROC/PPO); seq(B_grid+reset,{db}) for FAST_STOCH/CCI/OBV; seq(B_vol,{dv}) for MFI n=1..5 and OBV; seq(B_mfi (5 bars with equal typical prices), 8/10) for MFI n=1..4; the same alphabets in a 2^-60 price unit for periods 1..4 at reduced depth; SLOW_STOCH over {{1,2,3,5}}^2, PPO over {{1,2,3,5}}^3 at reduced depth; deviation families for periods up to {}; very long runs (2 x 25k / 2 x 500k steps) of RSI/FAST_STOCH/SLOW_STOCH/ROC/ER/PPO/OBV against an incremental double-double reference, and of CCI/MFI (2 x 6k / 2 x 100k steps) against the window recomputed from scratch", if th { 512 } else { 100 });
     res.assumptions = vec!["positive prices / valid bars only (the statement's domain)".into(), "c read as (largest magnitude entering numerator or denominator, inputs included) / |reference denominator|".into()];
     res
 }
